@@ -20,7 +20,7 @@ LEAN_TARGETS = ['CfVerif.Props.C08']
 PROPS_MODULES = ['CfVerif.Props.C08']
 DRIVER = 'Driver/C08.lean'
 REQUIRED_THEOREMS = ['CfVerif.C08.' + t for t in (
-    'header_lossless', 'emit_decodes', 'emit_complete', 'unrepresentable_raises', 'emit_port_channel_size', 'lopo_payload_decodes', 'thrust_out_of_range_raises',
+    'header_lossless', 'emit_decodes', 'history_decodes', 'history_results', 'history_version_is_latest', 'gen_object_state', 'emit_complete', 'unrepresentable_raises', 'emit_port_channel_size', 'lopo_payload_decodes', 'thrust_out_of_range_raises',
     'thrust_float_never_sent', 'int16_overflow_raises', 'f64ToInt_trunc', 'compress_quaternion_layout', 'iLargest_is_max',
     'bsMask_testBit', 'spiral_comparisons_exact', 'f64ToInt_nan_inf_raise', 'lh_persist_invalid_raises', 'lh_persist_live_counterexample', 'neg_int_zero',
     'gen_emitters', 'gen_setpoint', 'gen_hover', 'gen_fullState', 'gen_hlGoTo', 'gen_hlSpiral', 'gen_lhPersist', 'gen_lhPersist_detail', 'gen_packet',
@@ -35,7 +35,11 @@ ASSUMPTIONS = ['arguments are Python ints/bools/floats (None only for yaw of tak
 RULE = ('cases = one API call each (30 emitting methods x protocol versions -1..255 on both sides of every switch x x-mode), arguments '
         'drawn per field from typical values, boundary/special floats (signed zeros, inf, nan, binary32 max and the first doubles that '
         'overflow it, subnormals, +-2pi neighbours), any binary64/binary32 bit pattern, Python ints in float fields, field-width '
-        'boundaries of every integer field, bools, floats in integer fields; non-trivial = distinct request line')
+        'boundaries of every integer field, bools, floats in integer fields; plus HISTORIES of one long-lived Crazyflie/Commander/'
+        'HighLevelCommander/Localization object set whose negotiated protocol version (direct, via the real handshake callbacks, '
+        '-1 while the handshake runs / for firmware without versioning) and x-mode change between calls: every versioned method '
+        'across every ordered pair of versions around both switches, and random mixed histories; non-trivial = distinct request '
+        'line / distinct (history, position)')
 
 # ---------------------------------------------------------------------------------------------------
 # Tie A
@@ -788,11 +792,12 @@ def expected_fullstate_check(a, decoded):
 
 
 # ---- the real API calls ----------------------------------------------------------------------------
-def call_real(name, a):
-    """thunk cf -> None performing the API call"""
+def call_real(name, a, stateful=False):
+    """thunk cf -> None performing the API call (stateful: x-mode is whatever the long-lived Commander holds)"""
     if name == 'setpoint':
         def f(cf):
-            cf.commander.set_client_xmode(a[0])
+            if not stateful:
+                cf.commander.set_client_xmode(a[0])
             cf.commander.send_setpoint(a[1], a[2], a[3], a[4])
         return f
     c = {'notifyStop': lambda cf: cf.commander.send_notify_setpoint_stop(*a),
@@ -1064,6 +1069,165 @@ def corpus_cases():
     return out
 
 
+# ---- histories: ONE long-lived object set, protocol version and x-mode change between calls -------------
+VERSIONED = ['velocityWorld', 'zdistance', 'hover', 'hlGoTo', 'hlSpiral']
+SWITCH_VERSIONS = [-1, 0, 7, 8, 9, 10]
+
+
+def real_negotiate(cf, v, how):
+    """the platform service of the long-lived Crazyflie learns the version of a (new) connection"""
+    from cflib.crtp.crtpstack import CRTPPacket
+    if how == 'set':
+        cf.platform._protocolVersion = v
+        return
+    cf.platform.fetch_platform_informations(lambda: None)        # start of a connection: version unknown (-1), request sent
+    if how == 'fetch':
+        return
+    pk = CRTPPacket()
+    pk.set_header(15, 1)
+    if how == 'old-firmware':                                     # no magic string: protocol versioning not supported -> -1
+        pk.data = b'some other firmware'
+        cf.platform._crt_service_callback(pk)
+        return
+    pk.data = b'Bitcraze Crazyflie'
+    cf.platform._crt_service_callback(pk)
+    pk = CRTPPacket()
+    pk.set_header(13, 1)
+    pk.data = (0, v)
+    cf.platform._platform_callback(pk)
+
+
+def run_history(events):
+    """events: ('xmode', b) | ('ver', v, how) | ('call', name, args).  Returns [(version the harness negotiated last,
+    x-mode set last, version the platform object reports, outcome)] for the call events."""
+    import contextlib
+    import io
+    import warnings
+    cf = _stub_class()(-1)
+    cur_ver, cur_xm = -1, False
+    out = []
+    with warnings.catch_warnings(), contextlib.redirect_stdout(io.StringIO()):
+        warnings.simplefilter('ignore')
+        for ev in events:
+            if ev[0] == 'xmode':
+                cf.commander.set_client_xmode(ev[1])
+                cur_xm = bool(ev[1])
+            elif ev[0] == 'ver':
+                real_negotiate(cf, ev[1], ev[2])
+                cur_ver = ev[1] if ev[2] in ('set', 'handshake') else -1
+            else:
+                n0 = len(cf.link.sent)
+                seen = cf.platform.get_protocol_version()
+                try:
+                    call_real(ev[1], ev[2], stateful=True)(cf)
+                    r = ('ok', list(cf.link.sent[n0:]))
+                except Exception as e:
+                    if cf._send_lock.locked():
+                        r = ('err', 'lock-leaked:' + exc_enum(e))
+                        cf._send_lock.release()
+                    elif len(cf.link.sent) > n0:
+                        r = ('err', 'after-send:' + exc_enum(e))
+                    else:
+                        r = ('err', exc_enum(e))
+                out.append((cur_ver, cur_xm, seen, r))
+    return out
+
+
+def history_lines(events):
+    lines = ['new']
+    for ev in events:
+        if ev[0] == 'xmode':
+            lines.append('xmode %d' % (1 if ev[1] else 0))
+        elif ev[0] == 'ver':
+            lines.append('negotiated %d' % (ev[1] if ev[2] in ('set', 'handshake') else -1))
+        else:
+            lines.append('H ' + model_line(0, ev[1], ev[2]).split(' ', 1)[1])
+    return lines
+
+
+def gen_histories(ctx, nrand):
+    """systematic: every versioned method across every ordered pair of versions around both switches (incl. -1 before the
+    handshake has finished), each way the version can change; random: mixed histories of all methods"""
+    rng = ctx.rng
+    g = Gen(rng)
+    hs = []
+    for m in VERSIONED:
+        for v1 in SWITCH_VERSIONS:
+            for v2 in SWITCH_VERSIONS:
+                g.case()
+                g.wild = 0.0
+                how1 = 'set' if v1 < 0 else rng.choice(['set', 'handshake'])
+                if v2 < 0:
+                    ev2 = ('ver', v2 if rng.random() < 0.5 else rng.choice([9, 10]), rng.choice(['fetch', 'old-firmware'])) if rng.random() < 0.7 else ('ver', -1, 'set')
+                else:
+                    ev2 = ('ver', v2, rng.choice(['set', 'handshake']))
+                other = rng.choice([x for x in VERSIONED if x != m])
+                hs.append([('ver', v1, how1), ('call', m, gen_call(g, m)), ev2, ('call', m, gen_call(g, m)), ('call', other, gen_call(g, other))])
+    names = [n for n, _ in WEIGHTS]
+    for _ in range(nrand):
+        h = []
+        for _ in range(rng.randrange(3, 14)):
+            r = rng.random()
+            if r < 0.22:
+                v = rng.choice(SWITCH_VERSIONS + [11, 255])
+                h.append(('ver', v, rng.choice(['set', 'handshake']) if v >= 0 else rng.choice(['set', 'fetch', 'old-firmware'])))
+            elif r < 0.32:
+                h.append(('xmode', rng.choice([True, False, 1, 0])))
+            else:
+                g.case()
+                nm = rng.choice(VERSIONED + ['setpoint', 'setpoint']) if rng.random() < 0.7 else rng.choice(names)
+                a = gen_call(g, nm)
+                try:
+                    model_line(0, nm, a)
+                except OverflowError:
+                    continue
+                h.append(('call', nm, a))
+        if any(e[0] == 'call' for e in h):
+            hs.append(h)
+    return hs
+
+
+def corpus_histories():
+    import glob
+    import json
+    import os
+    out = []
+    for f in sorted(glob.glob(os.path.join(os.path.dirname(os.path.dirname(os.path.abspath(__file__))), 'corpus', 'c08', '*.json'))):
+        for e in json.load(open(f)).get('histories', []):
+            out.append(_eval_args(e['events']))
+    return out
+
+
+def correspond_histories(ctx):
+    hs = corpus_histories() + gen_histories(ctx, 60 if ctx.tier == 'quick' else 800)
+    lines = []
+    for h in hs:
+        lines += history_lines(h)
+    replies = iter(ctx.lean(DRIVER, lines))
+    for h in hs:
+        real = iter(run_history(h))
+        next(replies)                                   # 'new'
+        trail = []
+        for ev in h:
+            m = next(replies)
+            if ev[0] != 'call':
+                trail.append(ev[:2])
+                continue
+            cur_ver, cur_xm, seen, r = next(real)
+            got = 'v%d %s' % (seen, show_real(r))
+            ctx.count('history:call:' + ev[1])
+            ctx.count('history:version-in-force:' + ('<8' if cur_ver < 8 else '8' if cur_ver == 8 else '>8'))
+            prev = [t[1] for t in trail if t[0] == 'ver']
+            if len(prev) >= 2 and (prev[-2] <= 8) != (prev[-1] <= 8):
+                ctx.count('history:call-after-crossing-<=8')
+            if len(prev) >= 2 and (prev[-2] < 8) != (prev[-1] < 8):
+                ctx.count('history:call-after-crossing-<8')
+            ctx.case({'history': repr(h)[:300]}, ('hist', repr(h), len(trail)))
+            trail.append(('call', ev[1]))
+            if got != m:
+                ctx.disagree('history:' + ev[1], repr(h)[:600], m[:300], got[:300])
+
+
 def branches(name, ver, a):
     """branch / condition labels of one call (for the distribution record: none of these may stay constant)"""
     out = []
@@ -1109,6 +1273,7 @@ def correspond(ctx):
     for name, ver, a in corpus_cases():
         cases.append((name, ver, a, model_line(ver, name, a)))
     cases += gen_cases(ctx, 60 if ctx.tier == 'quick' else 700)
+    correspond_histories(ctx)
     replies = ctx.lean(DRIVER, [c[3] for c in cases])
     packets = []
     for (name, ver, a, line), model in zip(cases, replies):
@@ -1166,9 +1331,20 @@ def correspond(ctx):
 # ---------------------------------------------------------------------------------------------------
 # failing-input search: the property itself, evaluated on the real code's packets with the Python spec twins
 def judge(ctx, name, ver, a):
-    """evaluate the property on one call of the real code"""
+    """evaluate the property on one call of the real code (fresh objects)"""
     r = run_real(ver, call_real(name, a))
-    desc = {'method': name, 'version': ver, 'args': repr(a)}
+    judge_result(ctx, name, ver, a, r, {'method': name, 'version': ver, 'args': repr(a)})
+
+
+def judge_result(ctx, name, ver, a, r, desc, keysuffix=''):
+    """the property on the outcome `r` of one call made while protocol version `ver` was the negotiated one"""
+    nw = len(ctx.witnesses)
+    _judge_result(ctx, name, ver, a, r, desc)
+    for w in ctx.witnesses[nw:]:
+        w['key'] += keysuffix
+
+
+def _judge_result(ctx, name, ver, a, r, desc):
     ctx.evaluations += 1
     if r[0] == 'err' and (r[1].startswith('lock-leaked') or r[1].startswith('after-send')):
         ctx.witness('raise-' + r[1].split(':')[0], 'exception raised after the packet was handed to the link / with the send lock held', desc, got=r[1])
@@ -1285,12 +1461,35 @@ def search(ctx):
     # (3) generated calls
     for name, ver, a, _ in gen_cases(ctx, 25 if ctx.tier == 'quick' else 300):
         judge(ctx, name, ver, a)
+    # (4) histories: one long-lived Crazyflie / Commander / HighLevelCommander / Localization while the negotiated protocol
+    #     version (and x-mode) change between calls; every call must decode under the version negotiated last before it
+    for h in corpus_histories() + gen_histories(ctx, 40 if ctx.tier == 'quick' else 500):
+        judge_history(ctx, h)
+
+
+def judge_history(ctx, h):
+    calls = [ev for ev in h if ev[0] == 'call']
+    for i, ((cur_ver, cur_xm, seen, r), ev) in enumerate(zip(run_history(h), calls)):
+        name, a = ev[1], ev[2]
+        if name == 'setpoint':
+            a = (cur_xm,) + tuple(a[1:])
+        desc = {'history': repr(h), 'call_index': i, 'method': name, 'negotiated_version': cur_ver, 'xmode': cur_xm, 'args': repr(a)}
+        if seen != cur_ver:
+            ctx.witness('stale-version', 'the platform service reports another protocol version than the one negotiated last', desc, got=seen)
+        judge_result(ctx, name, cur_ver, a, r, desc, keysuffix=':in-history')
 
 
 def replay(ctx, rp):
     """./check C08 --replay <file>: re-evaluate the recorded call on the current tree; True iff it still violates the property"""
     w = rp.get('witness') or {}
     inp = w.get('input') or {}
+    if 'history' in inp:
+        judge_history(ctx, _eval_args(inp['history']))
+        for x in ctx.witnesses:
+            print('VIOLATED [%s] call #%s %s under negotiated version %s: got %s, decoded %s, wanted %s' % (
+                x['key'], x['input'].get('call_index'), x['input'].get('method'), x['input'].get('negotiated_version'),
+                x.get('got'), x.get('decoded'), x.get('want')))
+        return bool(ctx.witnesses)
     if 'method' in inp:
         judge(ctx, inp['method'], int(inp['version']), _eval_args(inp['args']))
         for x in ctx.witnesses:
